@@ -10,35 +10,56 @@
 (* level and the attribute ids in order) is modelled here, the exact bytes are *)
 (* supplied by the real slog.TextHandler in the harness.                       *)
 (*                                                                             *)
-(* Beside the specification variables the module carries the implementation-   *)
-(* shaped state of the textAttrs slices (Go slice headers over a heap of       *)
-(* backing arrays) so that TLC can show why WithAttrs must not append to a     *)
-(* slice that still has spare capacity: with ClipOnDerive = FALSE the          *)
-(* invariant AttrsImmutable is violated by two sibling derivations, with       *)
-(* ClipOnDerive = TRUE (what jsonhybrid.go does: append(slices.Clip(...)))     *)
-(* it holds.                                                                   *)
+(* Beside the specification variables the module carries implementation-shaped *)
+(* state, so that TLC can show why three details of jsonhybrid.go are needed:  *)
+(*  - textAttrs slices (Go slice headers over a heap of backing arrays):       *)
+(*    with ClipOnDerive = FALSE two sibling derivations overwrite each other   *)
+(*    (AttrsImmutable violated), with TRUE (append(slices.Clip(..))) not.      *)
+(*  - records as values the caller keeps and may handle again (same handler,   *)
+(*    a sibling, a fan-out): a slog.Record stores 5 attributes inline and the  *)
+(*    rest in a slice; copies share that slice's array (ShareOnCopy = TRUE is  *)
+(*    Go).  Handle adds the handler's attributes to its copy: with             *)
+(*    CloneBeforeAdd = FALSE it writes into spare capacity the caller's value  *)
+(*    still owns (RecordStorageUntouched violated) and the next Handle of the  *)
+(*    same value finds that slot occupied and reports slog's "!BUG" attribute  *)
+(*    (LinesCorrect violated); with TRUE (r = r.Clone()) neither happens.      *)
+(*  - the pooled text buffer: reset() must keep the buffer the TextHandler is  *)
+(*    bound to; RebindOnLarge = TRUE (replace a grown buffer by a fresh one)   *)
+(*    leaves the handler writing into the old buffer, Handle reads an empty    *)
+(*    one and panics (NoPanic / ItemBound violated).                           *)
 EXTENDS Integers, Sequences, FiniteSets
 
 CONSTANTS Levels,        \* record levels offered to Log (slog.Level integers)
           Thresholds,    \* configured levels; Init picks one (opts.Level, default Info = 0)
           Batches,       \* sizes of the attribute batches given to WithAttrs
-          RecSizes,      \* number of attributes a record itself carries
+          RecSizes,      \* records built by one AddAttrs call of this many attributes ...
+          RecShapes,     \* ... and records built by several calls: sequences of call sizes
+          Sizes,         \* size classes of a record's text (0 = small; see LargeSizes)
+          LargeSizes,    \* the classes whose line makes the pooled buffer grow beyond the "large" mark
           MaxH,          \* bound on the number of handlers (root included)
-          MaxLogs,       \* bound on Log steps (model checking / generation only)
+          MaxLogs,       \* bound on new records (model checking / generation only)
+          MaxRelogs,     \* bound on Handle calls that re-use an earlier record value
           MaxGroups,     \* bound on WithGroup steps
           MaxSteps,
-          ClipOnDerive   \* TRUE: append(slices.Clip(parent), batch...); FALSE: append(parent, batch...)
+          ClipOnDerive,  \* TRUE: append(slices.Clip(parent), batch...); FALSE: append(parent, batch...)
+          ShareOnCopy,   \* TRUE (Go): copies of a Record share the array behind the attributes 6, 7, ...
+          CloneBeforeAdd,\* TRUE: Handle clones its copy before AddAttrs
+          RebindOnLarge  \* FALSE: reset() only truncates; TRUE: it swaps a large buffer for a new one
 
 VARIABLES thr,      \* the configured level (copied to every derived handler)
           attrs,    \* attrs[h]: the accumulated attribute ids of handler h     (specification)
           parent,   \* parent[h]: the handler h was derived from, 0 for the root
           sl,       \* sl[h] = [arr, len, cap]: Go slice header of h.textAttrs  (implementation)
           heap,     \* heap[a]: backing array a, a sequence of length cap; 0 = never written
+          recs,     \* recs[r]: the r-th record value the caller built (and keeps)
+          rheap,    \* backing arrays of the records' attribute slices
+          item,     \* the pooled bufferedTextHandler: [large, bound]
+          panics,   \* Handle calls that panicked
           out,      \* the lines written so far, in order
           ngroups,  \* WithGroup calls so far (each of them panicked)
           steps
 
-vars == <<thr, attrs, parent, sl, heap, out, ngroups, steps>>
+vars == <<thr, attrs, parent, sl, heap, recs, rheap, item, panics, out, ngroups, steps>>
 
 LevelError == 8
 Severity(lv) == IF lv >= LevelError THEN "ERROR" ELSE "NORMAL"
@@ -49,9 +70,11 @@ NumH == Len(attrs)
 Handlers == 1..NumH
 
 (* Attribute ids: positive = given to WithAttrs when handler h was created,   *)
-(* negative = carried by the r-th record itself.                               *)
+(* negative = carried by the r-th record itself; BugAttr is the attribute      *)
+(* slog adds when AddAttrs finds the slot behind the record's slice occupied.  *)
 HAttr(h, i) == h * 10 + i
 RAttr(r, i) == 0 - (r * 10 + i)
+BugAttr == 0 - 1
 Owner(id) == id \div 10
 BatchOf(h, k) == [i \in 1..k |-> HAttr(h, i)]
 RecOf(r, m) == [i \in 1..m |-> RAttr(r, i)]
@@ -60,33 +83,63 @@ RECURSIVE Ancestors(_)
 Ancestors(h) == IF h = 0 THEN {} ELSE {h} \cup Ancestors(parent[h])
 
 ----------------------------------------------------------------------------
-(* Go slices. *)
+(* Go slices over an explicit heap hp (a sequence of arrays). *)
 Max(a, b) == IF a > b THEN a ELSE b
+Min(a, b) == IF a < b THEN a ELSE b
 NilSlice == [arr |-> 0, len |-> 0, cap |-> 0]
-Contents(s) == IF s.len = 0 THEN <<>> ELSE SubSeq(heap[s.arr], 1, s.len)
+ContentsIn(hp, s) == IF s.len = 0 THEN <<>> ELSE SubSeq(hp[s.arr], 1, s.len)
+Contents(s) == ContentsIn(heap, s)
 Clip(s) == [s EXCEPT !.cap = s.len]
 Fits(s, k) == s.len + k <= s.cap
-(* Amortised doubling; the real runtime also rounds up to a size class, which  *)
-(* only adds spare capacity and therefore more of the hazard shown here.       *)
+(* Amortised doubling (also what slices.Grow followed by appends gives); the   *)
+(* real runtime rounds up to a size class, which only adds spare capacity.     *)
 NewCap(s, k) == Max(s.len + k, 2 * s.cap)
 
-(* The slice header append(s, batch...) returns ... *)
-AppendResult(s, k) ==
-    IF k = 0 THEN s
-    ELSE IF Fits(s, k) THEN [s EXCEPT !.len = s.len + k]
-    ELSE [arr |-> Len(heap) + 1, len |-> s.len + k, cap |-> NewCap(s, k)]
-(* ... and what it does to the heap: in place when the batch fits. *)
-AppendHeap(s, batch) ==
+(* append(s, batch...) on heap hp: the new slice header and the new heap;      *)
+(* in place when the batch fits.                                               *)
+AppendIn(hp, s, batch) ==
     LET k == Len(batch) IN
-    IF k = 0 THEN heap
+    IF k = 0 THEN [s |-> s, heap |-> hp]
     ELSE IF Fits(s, k)
-      THEN [heap EXCEPT ![s.arr] =
-              [j \in 1..s.cap |-> IF j > s.len /\ j <= s.len + k THEN batch[j - s.len]
-                                  ELSE heap[s.arr][j]]]
-      ELSE Append(heap, [j \in 1..NewCap(s, k) |->
-                           IF j <= s.len THEN heap[s.arr][j]
-                           ELSE IF j <= s.len + k THEN batch[j - s.len]
-                           ELSE 0])
+      THEN [s |-> [s EXCEPT !.len = s.len + k],
+            heap |-> [hp EXCEPT ![s.arr] =
+                        [j \in 1..Len(hp[s.arr]) |-> IF j > s.len /\ j <= s.len + k THEN batch[j - s.len]
+                                                     ELSE hp[s.arr][j]]]]
+      ELSE [s |-> [arr |-> Len(hp) + 1, len |-> s.len + k, cap |-> NewCap(s, k)],
+            heap |-> Append(hp, [j \in 1..NewCap(s, k) |->
+                                   IF j <= s.len THEN hp[s.arr][j]
+                                   ELSE IF j <= s.len + k THEN batch[j - s.len]
+                                   ELSE 0])]
+
+----------------------------------------------------------------------------
+(* slog.Record: front = the first (up to 5) attributes, held in the value      *)
+(* itself; back = slice of the others.  rv = [front, back, heap].              *)
+NInline == 5
+
+(* Record.AddAttrs: fill the inline part, then - if the slot behind the slice  *)
+(* is occupied (somebody appended through another copy) - clip and add the     *)
+(* "!BUG" attribute, then grow and append.                                     *)
+AddAttrsTo(rv, ids) ==
+    LET nf    == Min(NInline - Len(rv.front), Len(ids))
+        rest  == SubSeq(ids, nf + 1, Len(ids))
+        dirty == rv.back.cap > rv.back.len /\ rv.heap[rv.back.arr][rv.back.len + 1] # 0
+        a1    == IF dirty THEN AppendIn(rv.heap, Clip(rv.back), <<BugAttr>>)
+                 ELSE [s |-> rv.back, heap |-> rv.heap]
+        a2    == AppendIn(a1.heap, a1.s, rest)
+    IN [front |-> rv.front \o SubSeq(ids, 1, nf), back |-> a2.s, heap |-> a2.heap]
+
+RECURSIVE BuildRec(_, _, _)
+(* The caller builds a record with one AddAttrs call per element of shape. *)
+BuildRec(rv, ids, shape) ==
+    IF shape = <<>> THEN rv
+    ELSE BuildRec(AddAttrsTo(rv, SubSeq(ids, 1, Head(shape))),
+                  SubSeq(ids, Head(shape) + 1, Len(ids)), Tail(shape))
+
+RECURSIVE SumSeq(_)
+SumSeq(s) == IF s = <<>> THEN 0 ELSE Head(s) + SumSeq(Tail(s))
+
+RecAttrsOf(r) == recs[r].front \o ContentsIn(rheap, recs[r].back)
+RelogsSoFar == Len(out) + panics - Len(recs)
 
 ----------------------------------------------------------------------------
 Init == /\ thr \in Thresholds
@@ -94,6 +147,10 @@ Init == /\ thr \in Thresholds
         /\ parent = <<0>>
         /\ sl = <<NilSlice>>
         /\ heap = <<>>
+        /\ recs = <<>>
+        /\ rheap = <<>>
+        /\ item = [large |-> FALSE, bound |-> TRUE]
+        /\ panics = 0
         /\ out = <<>>
         /\ ngroups = 0
         /\ steps = 0
@@ -105,35 +162,78 @@ Derive(h, k) ==
     /\ LET new == NumH + 1
            batch == BatchOf(new, k)
            base == IF ClipOnDerive THEN Clip(sl[h]) ELSE sl[h]
+           a == AppendIn(heap, base, batch)
        IN /\ attrs' = Append(attrs, attrs[h] \o batch)
           /\ parent' = Append(parent, h)
-          /\ sl' = Append(sl, AppendResult(base, k))
-          /\ heap' = AppendHeap(base, batch)
-    /\ UNCHANGED <<thr, out, ngroups>>
+          /\ sl' = Append(sl, a.s)
+          /\ heap' = a.heap
+    /\ UNCHANGED <<thr, recs, rheap, item, panics, out, ngroups>>
 
-(* The line the implementation writes reads the slice; the one the property    *)
-(* demands reads attrs[h].                                                     *)
-Line(h, lv, rec, hattrs) ==
-    [h |-> h, lv |-> lv, sev |-> Severity(lv), rec |-> rec, attrs |-> rec \o hattrs]
-ExpectedLine(h, lv, rec) == Line(h, lv, rec, attrs[h])
+(* A line: r = the record's number (0: not kept by the caller), rec = the      *)
+(* record's own attributes, attrs = everything the message shows.              *)
+Line(h, lv, r, rec, shown) ==
+    [h |-> h, lv |-> lv, sev |-> Severity(lv), r |-> r, rec |-> rec, attrs |-> shown]
+ExpectedLine(h, lv, r, rec) == Line(h, lv, r, rec, rec \o attrs[h])
 
-(* h.Handle(record): exactly one line, whatever the level (Handle does not     *)
-(* consult Enabled), the record's own attributes first.                        *)
-LogRec(h, lv, rec) ==
-    /\ out' = Append(out, Line(h, lv, rec, Contents(sl[h])))
+(* reset() and the pooled item: whether this call finds its text again. *)
+StillBound == IF RebindOnLarge /\ item.large THEN FALSE ELSE item.bound
+
+(* h.Handle(value rv of record r), the records' heap being hp: the handler     *)
+(* works on a copy of the value.                                               *)
+HandleOn(hp, h, r, rv) ==
+    LET b0    == rv.back
+        \* the copy: Go copies the slice header only
+        priv  == ~ShareOnCopy /\ b0.cap > 0
+        hp0   == IF priv THEN Append(hp, hp[b0.arr]) ELSE hp
+        b1    == IF priv THEN [b0 EXCEPT !.arr = Len(hp) + 1] ELSE b0
+        b2    == IF CloneBeforeAdd THEN Clip(b1) ELSE b1
+        added == AddAttrsTo([front |-> rv.front, back |-> b2, heap |-> hp0], Contents(sl[h]))
+        shown == added.front \o ContentsIn(added.heap, added.back)
+    IN /\ rheap' = added.heap
+       /\ IF StillBound
+            THEN /\ out' = Append(out, Line(h, rv.lv, r, rv.attrs, shown))
+                 /\ item' = [large |-> item.large \/ rv.sz \in LargeSizes, bound |-> TRUE]
+                 /\ UNCHANGED panics
+            ELSE \* Handle reads the new, empty buffer: msg[:len(msg)-1] panics, nothing is written
+                 /\ panics' = panics + 1
+                 /\ item' = [large |-> FALSE, bound |-> FALSE]
+                 /\ UNCHANGED out
+
+(* The caller builds a new record (level, size class, AddAttrs calls of the    *)
+(* given sizes) and handles it.                                                *)
+LogNew(h, lv, sz, shape) ==
+    /\ LET r   == Len(recs) + 1
+           ids == RecOf(r, SumSeq(shape))
+           b   == BuildRec([front |-> <<>>, back |-> NilSlice, heap |-> rheap], ids, shape)
+           rv  == [lv |-> lv, sz |-> sz, attrs |-> ids, front |-> b.front, back |-> b.back]
+       IN /\ recs' = Append(recs, rv)
+          /\ HandleOn(b.heap, h, r, rv)
     /\ UNCHANGED <<thr, attrs, parent, sl, heap, ngroups>>
-Log(h, lv, m) == LogRec(h, lv, RecOf(Len(out) + 1, m))
+
+(* The caller hands a record value it already used to a handler again. *)
+ReLog(h, r) ==
+    /\ HandleOn(rheap, h, r, recs[r])
+    /\ UNCHANGED <<thr, attrs, parent, sl, heap, recs, ngroups>>
+
+(* Abstract form used by trace validation: a record given by its attribute     *)
+(* ids, handled once, its storage not modelled.                                *)
+LogRec(h, lv, rec) ==
+    /\ out' = Append(out, Line(h, lv, 0, rec, rec \o Contents(sl[h])))
+    /\ UNCHANGED <<thr, attrs, parent, sl, heap, recs, rheap, item, panics, ngroups>>
 
 (* h.WithGroup(name) is not supported: it panics and changes nothing. *)
 WithGroup(h) ==
     /\ ngroups' = ngroups + 1
-    /\ UNCHANGED <<thr, attrs, parent, sl, heap, out>>
+    /\ UNCHANGED <<thr, attrs, parent, sl, heap, recs, rheap, item, panics, out>>
+
+Shapes == RecShapes \cup {<<m>> : m \in RecSizes}
 
 Next == /\ steps < MaxSteps
         /\ steps' = steps + 1
         /\ \E h \in Handlers :
              \/ \E k \in Batches : Derive(h, k)
-             \/ Len(out) < MaxLogs /\ \E lv \in Levels, m \in RecSizes : Log(h, lv, m)
+             \/ Len(recs) < MaxLogs /\ \E lv \in Levels, sz \in Sizes, sh \in Shapes : LogNew(h, lv, sz, sh)
+             \/ RelogsSoFar < MaxRelogs /\ \E r \in 1..Len(recs) : ReLog(h, r)
              \/ ngroups < MaxGroups /\ WithGroup(h)
 
 Spec == Init /\ [][Next]_vars
@@ -145,6 +245,9 @@ TypeOK ==
     /\ \A h \in Handlers : /\ parent[h] \in 0..(h - 1)
                            /\ sl[h].len <= sl[h].cap
                            /\ (sl[h].cap > 0 => sl[h].arr \in 1..Len(heap) /\ Len(heap[sl[h].arr]) >= sl[h].cap)
+    /\ \A r \in 1..Len(recs) : /\ Len(recs[r].front) <= NInline
+                               /\ recs[r].back.len <= recs[r].back.cap
+                               /\ (recs[r].back.cap > 0 => Len(rheap[recs[r].back.arr]) >= recs[r].back.cap)
 
 (* "attrs of a handler never change after creation": what the handler holds is *)
 (* what it was given at creation, whatever was derived from whom afterwards.   *)
@@ -152,13 +255,25 @@ AttrsImmutable == \A h \in Handlers : Contents(sl[h]) = attrs[h]
 
 (* Every line is the required one ... *)
 LinesCorrect == \A i \in 1..Len(out) :
-    /\ out[i] = ExpectedLine(out[i].h, out[i].lv, out[i].rec)
+    /\ out[i] = ExpectedLine(out[i].h, out[i].lv, out[i].r, out[i].rec)
     /\ out[i].sev = (IF out[i].lv >= 8 THEN "ERROR" ELSE "NORMAL")
 (* ... in particular no attribute of a sibling (or of any handler that is not  *)
-(* an ancestor) and no attribute of another record appears in it.              *)
+(* an ancestor), of another record, or of slog's own making appears in it.     *)
 NoSiblingLeak == \A i \in 1..Len(out) : \A j \in 1..Len(out[i].attrs) :
     LET id == out[i].attrs[j] IN
-    IF id > 0 THEN Owner(id) \in Ancestors(out[i].h) ELSE Owner(0 - id) = i
+    IF id > 0 THEN Owner(id) \in Ancestors(out[i].h)
+    ELSE id # BugAttr /\ (out[i].r > 0 => Owner(0 - id) = out[i].r)
+
+(* The values the caller keeps still mean what they meant ... *)
+RecordsImmutable == \A r \in 1..Len(recs) : RecAttrsOf(r) = recs[r].attrs
+(* ... and nobody wrote into storage that belongs to them. *)
+RecordStorageUntouched == \A r \in 1..Len(recs) :
+    \A j \in (recs[r].back.len + 1)..recs[r].back.cap : rheap[recs[r].back.arr][j] = 0
+
+(* One line per Handle call: none of them panicked, and the pooled text        *)
+(* handler still writes into the buffer Handle reads from.                     *)
+NoPanic == panics = 0
+ItemBound == item.bound
 
 (* A handler's attributes are its parent's followed by its own batch. *)
 TreeShape == \A h \in Handlers : h > 1 =>
